@@ -192,14 +192,16 @@ class ConfigParser(ABC):
         for line in config_l:
             # not indented lines (main config) used as dictionary keys
             if re.match(r"\S", line):
-                if re.match("interface .+", key) and not data.get(key):
-                    data[key] = []  # empty dict for interface without settings
+                if re.match("(interface|ip access-list) .+", key) and not data.get(key):
+                    data[key] = []  # empty dict for interface, access list without settings
                 key = line.strip()
             # indented lines used as dictionary values
             elif re.match(r"\s", line):
                 # save line as dictionary value | init
                 line_ = line.strip()
                 data[key] = data[key] + [line_] if data.get(key) else [line_]
+        if re.match("(interface|ip access-list) .+", key) and not data.get(key):
+            data[key] = []  # the last section of the config
         return data
 
     def _parse_mdic(self, config_l: LStr) -> DAny:
